@@ -116,6 +116,7 @@ pub fn ktable() -> &'static Vec<KEnt> {
         add(301, false, &other, &other_pub, vec![cn(1, false), cn(2, false)]);
         add(302, true, &acc, &acc_pub, vec![cn(0, false), cn(6, false)]);
         add(303, true, &acc, &acc_pub, vec![]);
+        add(304, true, &acc, &acc_pub, vec![cn(1, false), cn(5, false)]);
         for e in &v {
             assert_eq!(e.def.master_fingerprint(), e.fp, "fingerprint of {}", e.def);
             assert_eq!(e.def.full_derivation_paths(), vec![DerivationPath::from(e.path.clone())]);
@@ -295,19 +296,37 @@ pub fn dd_key(wrap: Wrap, key: u32) -> Option<DD> {
     Some(DD { name: desc.to_string().split('#').next().unwrap().to_string(), desc, keys: vec![key], hashes: vec![], afters: vec![], olders: vec![], leaves: vec![], internal: None, leaf_keys: vec![], rawpkhs: vec![], sane: true })
 }
 /// tr(internal, leaves as a left-leaning comb)
-pub fn dd_tr(internal: u32, leaf_nodes: &[Node]) -> Option<DD> {
+#[derive(Clone, Copy, Debug, PartialEq, Eq)]
+pub enum Shape { Left, Right, Balanced }
+
+fn build_tree(leaves: &[TapTree<DefiniteDescriptorKey>], shape: Shape) -> Option<TapTree<DefiniteDescriptorKey>> {
+    match leaves.len() {
+        0 => None,
+        1 => Some(leaves[0].clone()),
+        n => match shape {
+            Shape::Left => TapTree::combine(build_tree(&leaves[..n - 1], shape)?, leaves[n - 1].clone()).ok(),
+            Shape::Right => TapTree::combine(leaves[0].clone(), build_tree(&leaves[1..], shape)?).ok(),
+            Shape::Balanced => TapTree::combine(build_tree(&leaves[..n / 2], shape)?, build_tree(&leaves[n / 2..], shape)?).ok(),
+        },
+    }
+}
+
+pub fn dd_tr(internal: u32, leaf_nodes: &[Node]) -> Option<DD> { dd_tr_shape(internal, leaf_nodes, Shape::Left) }
+
+/// tr(internal, leaves in the given order as a left comb / right comb / balanced tree)
+pub fn dd_tr_shape(internal: u32, leaf_nodes: &[Node], shape: Shape) -> Option<DD> {
     type K = DefiniteDescriptorKey;
-    let mut tree: Option<TapTree<K>> = None;
     let mut lhs = vec![];
     let mut sane = true;
+    let mut tl = vec![];
     for n in leaf_nodes {
         use miniscript::ScriptContext;
         let ms: Miniscript<K, Tap> = ast::to_ms(n).ok()?;
         sane &= Tap::check_global_validity(&ms).is_ok() && ms.validate(&Tap::CONSENSUS).is_ok();
         lhs.push(TapLeafHash::from_script(&ms.encode(), miniscript::bitcoin::taproot::LeafVersion::TapScript));
-        let leaf = TapTree::leaf(Arc::new(ms));
-        tree = Some(match tree { None => leaf, Some(t) => TapTree::combine(t, leaf).ok()? });
+        tl.push(TapTree::leaf(Arc::new(ms)));
     }
+    let tree = if tl.is_empty() { None } else { Some(build_tree(&tl, shape)?) };
     let desc = Descriptor::new_tr(kent(internal).def.clone(), tree).ok()?;
     let refs: Vec<&Node> = leaf_nodes.iter().collect();
     let (mut keys, hashes, afters, olders) = collect(&refs);
@@ -574,9 +593,16 @@ pub struct Stats { pub plans: u64, pub noplans: u64 }
 
 /// all checks for one (descriptor, assets, mode)
 pub fn check_case(out: &mut Out, dd: &DD, pa: &PA, mall: bool, adversarial: bool) {
+    check_case_api(out, dd, pa, None, mall, adversarial)
+}
+
+/// `api`: an `Assets` value built through the library's own construction API (label, value)
+/// whose documented meaning is `pa`; everything is then planned with THAT value and judged
+/// against the satisfier that embodies `pa`.
+pub fn check_case_api(out: &mut Out, dd: &DD, pa: &PA, api: Option<(&str, &PlanAssets)>, mall: bool, adversarial: bool) {
     let mode = if mall { "mall" } else { "nonmall" };
-    let assets = pa.to_assets(&dd.leaves);
-    let aw = pa.wire();
+    let assets = match api { Some((_, a)) => a.clone(), None => pa.to_assets(&dd.leaves) };
+    let aw = match api { Some((l, _)) => format!("api:{};{}", l, pa.wire()), None => pa.wire() };
     let ty = dd.desc.desc_type();
     let class = if f7_class(dd, pa) { "emptypath" } else { "reg" };
     // (f) into_plan / into_plan_mall must not panic.  Cases with raw key-hash assets are planned
@@ -864,27 +890,96 @@ fn psbt_check(out: &mut Out, dd: &DD, plan: &DPlan, ps: &PSat, pwit: &[Vec<u8>],
     // descriptors only; a dissatisfied RAW key hash cannot be carried by the PSBT)
     if !dd.sane { out.count("psbt-finalize skipped: script rejected by decode_consensus rules"); return; }
     if raw_pk_only { out.count("psbt-finalize skipped: raw key hash dissatisfied (key known to the satisfier only)"); return; }
-    {
-        let inp = &mut psbt.inputs[0];
-        for g in &log {
-            match g {
-                Given::Ecdsa { pk, sig, .. } | Given::RawEcdsa { pk, sig } => { inp.partial_sigs.insert(*pk, *sig); }
-                Given::TapKey { sig } => { inp.tap_key_sig = Some(*sig); }
-                Given::TapLeaf { x, leaf, sig, .. } => { inp.tap_script_sigs.insert((*x, *leaf), *sig); }
-                Given::Pre { kind, id } => {
-                    let (v, p) = (ast::hash_value(*kind, *id), ast::preimage(*id).to_vec());
-                    match kind {
-                        HK::Sha256 => { inp.sha256_preimages.insert(sha256::Hash::from_slice(&v).unwrap(), p); }
-                        HK::Hash256 => { inp.hash256_preimages.insert(miniscript::bitcoin::hashes::sha256d::Hash::from_slice(&v).unwrap(), p); }
-                        HK::Ripemd160 => { inp.ripemd160_preimages.insert(ripemd160::Hash::from_slice(&v).unwrap(), p); }
-                        HK::Hash160 => { inp.hash160_preimages.insert(hash160::Hash::from_slice(&v).unwrap(), p); }
+    let once = psbt.inputs[0].clone();
+    sign_input(&mut psbt.inputs[0], &log);
+    let (res, fw, fs) = finalize(&mut psbt, mall);
+    if pkh_dissat {
+        if res != "ok" { out.count("observation: PSBT updated by the plan + all requested signatures does not finalize (pushed key without origin)"); }
+    } else {
+        out.line(&format!("J psbt-finalize {}.{} {} {} {} {} {} {} {} {}", class, tag, mode, dd.name, aw, res, fw, fs, wit_wire(pwit), hex(pss.as_bytes())), "ok");
+    }
+    // ---- update_psbt_input on a PRE-POPULATED input (every 3rd plan): the same plan applied
+    // twice, and the plan applied after PsbtExt::update_input_with_descriptor; both must still
+    // finalize to the plan's spend.  What the second update changes is an observation.
+    let nth = VARIANT_CTR.with(|c| { let v = c.get(); c.set(v + 1); v });
+    if nth % 3 != 0 { return; }
+    let fresh = || -> Option<Psbt> { let mut p = Psbt::from_unsigned_tx(ps.tx.clone()).ok()?; p.inputs[0].witness_utxo = Some(ps.prevout.clone()); Some(p) };
+    if let Some(mut p2) = fresh() {
+        if catch(|| { plan.update_psbt_input(&mut p2.inputs[0]); plan.update_psbt_input(&mut p2.inputs[0]); }).is_none() {
+            out.line(&format!("J nopanic update_psbt_input-twice {}.{} {} PANIC", class, ty_name(ty), head), "ok");
+        } else {
+            if tr && !leaf_of.is_empty() {
+                let all_have = p2.inputs[0].tap_key_origins.iter().filter(|(x, _)| leaf_of.keys().any(|id| kent(*id).pk.inner.x_only_public_key().0 == **x)).all(|(_, (l, _))| !l.is_empty());
+                out.count(if all_have { "observation: a SECOND update_psbt_input adds the leaf hash the first one left out" } else { "observation: leaf hash still missing after a second update_psbt_input" });
+            }
+            if p2.inputs[0].bip32_derivation != once.bip32_derivation || p2.inputs[0].tap_scripts != once.tap_scripts
+                || p2.inputs[0].witness_script != once.witness_script || p2.inputs[0].redeem_script != once.redeem_script
+                || p2.inputs[0].tap_merkle_root != once.tap_merkle_root || p2.inputs[0].tap_internal_key != once.tap_internal_key {
+                out.count("observation: update_psbt_input is not idempotent on scripts / bip32_derivation");
+            }
+            sign_input(&mut p2.inputs[0], &log);
+            let (res, fw, fs) = finalize(&mut p2, mall);
+            if !pkh_dissat {
+                out.line(&format!("J psbt-finalize twice.{}.{} {} {} {} {} {} {} {} {}", class, tag, mode, dd.name, aw, res, fw, fs, wit_wire(pwit), hex(pss.as_bytes())), "ok");
+            }
+        }
+    }
+    if let Some(mut p3) = fresh() {
+        match catch(|| p3.update_input_with_descriptor(0, &dd.desc).is_ok()) {
+            None => { out.line(&format!("J nopanic update_input_with_descriptor {}.{} {} PANIC", class, ty_name(ty), head), "ok"); }
+            Some(false) => { out.count(&format!("update_input_with_descriptor refused: {}", ty_name(ty))); }
+            Some(true) => {
+                if catch(|| plan.update_psbt_input(&mut p3.inputs[0])).is_none() {
+                    out.line(&format!("J nopanic update_psbt_input-after-descriptor {}.{} {} PANIC", class, ty_name(ty), head), "ok");
+                } else {
+                    sign_input(&mut p3.inputs[0], &log);
+                    let (res, fw, fs) = finalize(&mut p3, mall);
+                    if tr && !key_spend {
+                        // every leaf is on the input now: the finalizer may legitimately pick
+                        // another leaf of the same cost; it must finalize to a VALID spend
+                        out.line(&format!("J psbt-finalizes afterdesc.{}.{} {} {} {} {}", class, tag, mode, dd.name, aw, res), "ok");
+                        if res == "ok" && (fw != wit_wire(pwit)) {
+                            let w: Vec<Vec<u8>> = p3.inputs[0].final_script_witness.as_ref().map(|w| w.to_vec()).unwrap_or_default();
+                            // signatures for the other leaf were not requested by the plan: the
+                            // finalizer can only have used what `log` holds
+                            desc::register_valid(out, &ps.tx, &ps.prevout, &ScriptBuf::new(), &w, &candidates(ps));
+                            out.line(&format!("J spend {} {} {} - {} | afterdesc {} {} {}", ps.tx.lock_time.to_consensus_u32(), ps.tx.input[0].sequence.to_consensus_u32(),
+                                hex(ps.prevout.script_pubkey.as_bytes()), fw, mode, dd.name, aw), "ok");
+                        }
+                    } else {
+                        // every key origin is present now, so the pushed-key class finalizes too
+                        out.line(&format!("J psbt-finalize afterdesc.{}.{} {} {} {} {} {} {} {} {}", class, tag, mode, dd.name, aw, res, fw, fs, wit_wire(pwit), hex(pss.as_bytes())), "ok");
                     }
                 }
             }
         }
     }
+}
+
+thread_local! { static VARIANT_CTR: std::cell::Cell<u64> = std::cell::Cell::new(0); }
+
+fn sign_input(inp: &mut psbt::Input, log: &[Given]) {
+    for g in log {
+        match g {
+            Given::Ecdsa { pk, sig, .. } | Given::RawEcdsa { pk, sig } => { inp.partial_sigs.insert(*pk, *sig); }
+            Given::TapKey { sig } => { inp.tap_key_sig = Some(*sig); }
+            Given::TapLeaf { x, leaf, sig, .. } => { inp.tap_script_sigs.insert((*x, *leaf), *sig); }
+            Given::Pre { kind, id } => {
+                let (v, p) = (ast::hash_value(*kind, *id), ast::preimage(*id).to_vec());
+                match kind {
+                    HK::Sha256 => { inp.sha256_preimages.insert(sha256::Hash::from_slice(&v).unwrap(), p); }
+                    HK::Hash256 => { inp.hash256_preimages.insert(miniscript::bitcoin::hashes::sha256d::Hash::from_slice(&v).unwrap(), p); }
+                    HK::Ripemd160 => { inp.ripemd160_preimages.insert(ripemd160::Hash::from_slice(&v).unwrap(), p); }
+                    HK::Hash160 => { inp.hash160_preimages.insert(hash160::Hash::from_slice(&v).unwrap(), p); }
+                }
+            }
+        }
+    }
+}
+
+fn finalize(psbt: &mut Psbt, mall: bool) -> (String, String, String) {
     let r = catch(|| if mall { psbt.finalize_mall_mut(secp()) } else { psbt.finalize_mut(secp()) });
-    let (res, fw, fs) = match r {
+    match r {
         None => ("panic".to_string(), ".".to_string(), "-".to_string()),
         Some(Err(e)) => (format!("err:{}", e.iter().map(|x| x.to_string()).collect::<Vec<_>>().join("/").replace(' ', "_")), ".".to_string(), "-".to_string()),
         Some(Ok(())) => {
@@ -892,11 +987,50 @@ fn psbt_check(out: &mut Out, dd: &DD, plan: &DPlan, ps: &PSat, pwit: &[Vec<u8>],
             let ss = psbt.inputs[0].final_script_sig.clone().unwrap_or_default();
             ("ok".to_string(), wit_wire(&w), hex(ss.as_bytes()))
         }
+    }
+}
+
+/// two plans for DIFFERENT leaves that share a key, applied to the same input one after the
+/// other (the and_modify branch of update_psbt_input): observations on what is recorded, and the
+/// input — given both plans' signatures — must finalize to a spend the Lean verifier accepts
+fn psbt_two_leaves(out: &mut Out) {
+    let leaves = vec![and_v(vpk(200), Node::Older(10)), pk(200), and_v(vpk(200), Node::After(100))];
+    let dd = match dd_tr(3, &leaves) { Some(d) => d, None => return };
+    let base = full_pa(&dd);
+    let plan_for = |li: usize| -> Option<(PA, DPlan)> {
+        let mut pa = base.clone();
+        for s in pa.srcs.iter_mut() { s.key_spend = false; s.leaves = Leaves::Only(vec![li]); }
+        let a = pa.to_assets(&dd.leaves);
+        match run_plan(&dd, &a, false, false) { Some(Ok(p)) => Some((pa, p)), _ => None }
     };
-    if pkh_dissat {
-        if res != "ok" { out.count("observation: PSBT updated by the plan + all requested signatures does not finalize (pushed key without origin)"); }
-    } else {
-        out.line(&format!("J psbt-finalize {}.{} {} {} {} {} {} {} {} {}", class, tag, mode, dd.name, aw, res, fw, fs, wit_wire(pwit), hex(pss.as_bytes())), "ok");
+    for (i, j) in [(0usize, 1usize), (1, 0), (0, 2)] {
+        let (pa_i, plan_i) = match plan_for(i) { Some(x) => x, None => continue };
+        let (pa_j, plan_j) = match plan_for(j) { Some(x) => x, None => continue };
+        // one transaction meeting both plans' locks
+        let lt = [&plan_i, &plan_j].iter().filter_map(|p| p.absolute_timelock.map(|l| l.to_consensus_u32())).max().unwrap_or(0);
+        let sq = [&plan_i, &plan_j].iter().filter_map(|p| p.relative_timelock.map(|l| l.to_consensus_u32())).max().unwrap_or(0xffff_fffe);
+        let (ps_i, ps_j) = (PSat::new(&dd, &pa_i, lt, sq), PSat::new(&dd, &pa_j, lt, sq));
+        if plan_i.satisfy(&ps_i).is_err() || plan_j.satisfy(&ps_j).is_err() { continue; }
+        let mut psbt = match Psbt::from_unsigned_tx(ps_i.tx.clone()) { Ok(p) => p, Err(_) => continue };
+        psbt.inputs[0].witness_utxo = Some(ps_i.prevout.clone());
+        if catch(|| { plan_i.update_psbt_input(&mut psbt.inputs[0]); plan_j.update_psbt_input(&mut psbt.inputs[0]); }).is_none() {
+            out.line(&format!("J nopanic update_psbt_input-two-leaves {} {}+{} PANIC", dd.name, i, j), "ok");
+            continue;
+        }
+        let x = kent(0).pk.inner.x_only_public_key().0;
+        let n_lh = psbt.inputs[0].tap_key_origins.get(&x).map(|(l, _)| l.len()).unwrap_or(0);
+        out.count(&format!("observation: two plans sharing a key on one input: {} leaf hash(es) recorded for the key, {} tap_scripts", n_lh, psbt.inputs[0].tap_scripts.len()));
+        sign_input(&mut psbt.inputs[0], &ps_i.log.borrow());
+        sign_input(&mut psbt.inputs[0], &ps_j.log.borrow());
+        let (res, fw, fs) = finalize(&mut psbt, false);
+        out.line(&format!("J psbt-finalizes two-leaves.tr.script nonmall {} {}+{} {}", dd.name, i, j, res), "ok");
+        if res == "ok" {
+            let w: Vec<Vec<u8>> = psbt.inputs[0].final_script_witness.as_ref().map(|w| w.to_vec()).unwrap_or_default();
+            let mut cands = ps_i.issued.borrow().clone(); cands.extend(ps_j.issued.borrow().iter().cloned());
+            desc::register_valid(out, &ps_i.tx, &ps_i.prevout, &ScriptBuf::new(), &w, &cands);
+            out.line(&format!("J spend {} {} {} - {} | two-leaves {} {}+{}", lt, sq, hex(ps_i.prevout.script_pubkey.as_bytes()), fw, dd.name, i, j), "ok");
+            let _ = fs;
+        }
     }
 }
 
@@ -984,10 +1118,15 @@ fn pa_variants(dd: &DD, cap: usize, rng: &mut Rng) -> Vec<PA> {
     let mut seen = BTreeSet::new();
     v.retain(|a| seen.insert(a.clone()));
     if v.len() > cap {
-        // keep the full set, then an evenly spread selection
+        // keep the full set and an evenly spread selection …
         let step = v.len() as f64 / cap as f64;
         let mut w = vec![];
         for i in 0..cap { w.push(v[(i as f64 * step) as usize].clone()); }
+        // … and, for EVERY descriptor, each lock at / one below / one above / other unit / none
+        for o in lock_options_abs(&dd.afters) { let mut a = full.clone(); a.abs = o; w.push(a); }
+        for o in lock_options_rel(&dd.olders) { let mut a = full.clone(); a.rel = o; w.push(a); }
+        let mut seen = BTreeSet::new();
+        w.retain(|a| seen.insert(a.clone()));
         v = w;
     }
     v
@@ -1062,6 +1201,16 @@ fn lock_corpus(k: &dyn Fn(u32) -> u32, tap: bool) -> Vec<Node> {
         Node::AndOr(bx(pk(k(0))), bx(Node::Older(20)), bx(and_v(vpk(k(1)), Node::Older(10)))),
         Node::OrI(bx(and_v(vpk(k(0)), Node::After(200))), bx(and_v(vpk(k(1)), Node::After(100)))),
         Node::OrI(bx(and_v(vpk(k(0)), Node::Older(10))), bx(and_v(vpk(k(1)), Node::After(100)))),
+        // two EQUAL locks on one path; older() values with bits outside the consensus mask
+        and_v(Node::Verify(bx(Node::After(100))), Node::After(100)),
+        and_v(Node::Verify(bx(Node::Older(10))), Node::Older(10)),
+        and_v(Node::Verify(bx(Node::Older(65_546))), Node::Older(20)),
+        and_v(Node::Verify(bx(Node::Older(4_259_850))), Node::Older(4_194_324)),
+        and_v(vpk(k(0)), and_v(Node::Verify(bx(Node::After(100))), Node::After(100))),
+        and_v(vpk(k(0)), and_v(Node::Verify(bx(Node::Older(10))), Node::Older(10))),
+        and_v(vpk(k(0)), and_v(Node::Verify(bx(Node::Older(65_546))), Node::Older(20))),
+        and_v(vpk(k(0)), and_v(Node::Verify(bx(Node::Older(20))), Node::Older(65_546))),
+        and_v(vpk(k(0)), and_v(Node::Verify(bx(Node::Older(4_259_850))), Node::Older(4_194_324))),
         Node::Thresh(2, vec![pk(k(0)), Node::Swap(bx(pk(k(1)))), sln(Node::After(100))]),
         Node::Thresh(2, vec![pk(k(0)), Node::Swap(bx(pk(k(1)))), sln(Node::Older(10)), sln(Node::After(200))]),
         Node::Thresh(3, vec![pk(k(0)), sln(Node::After(100)), sln(Node::After(200)), sln(Node::Older(20))]),
@@ -1132,6 +1281,211 @@ fn raw_variants(dd: &DD) -> Vec<PA> {
     v
 }
 
+/// uncompressed keys inside sh() / bare() miniscripts (every tier): satisfied, dissatisfied
+/// (the 65-byte key is pushed without a signature), mixed with compressed keys, raw key hash
+fn unc_corpus(bare: bool) -> Vec<Node> {
+    let pkh = |i: u32| Node::Check(bx(Node::PkH(i)));
+    let mut v = vec![pk(100), pkh(100), Node::Multi(1, vec![100, 0]), Node::Multi(2, vec![0, 101, 1])];
+    if !bare {
+        v.extend(vec![
+            Node::OrB(bx(pkh(100)), bx(Node::Alt(bx(pk(1))))),
+            Node::OrB(bx(pkh(101)), bx(Node::Swap(bx(Node::OrI(bx(Node::False), bx(Node::ZeroNotEqual(bx(Node::Hash(HK::Ripemd160, 3))))))))),
+            and_v(vpk(0), pk(100)),
+            and_v(Node::Verify(bx(pkh(100))), pk(1)),
+            Node::Check(bx(Node::RawPkH(100))),
+            Node::OrD(bx(Node::Check(bx(Node::RawPkH(100)))), bx(pk(1))),
+            Node::OrD(bx(pk(100)), bx(pk(0))),
+            Node::SortedMulti(1, vec![100, 1, 102]),
+        ]);
+    }
+    v
+}
+
+/// legacy scripts whose ENCODED length is exactly `target` bytes (the push-opcode edges 75/76
+/// and 255/256 of the redeem-script push): a chain of `n` keys (35 bytes each) padded with
+/// `v:older(10)` (3 bytes) and `v:older(200)` (5 bytes)
+fn sized_script(target: usize) -> Option<Node> {
+    for n in 1..=7usize {
+        for k5 in 0..=3usize {
+            for k3 in 0..=3usize {
+                if 35 * n + 5 * k5 + 3 * k3 != target { continue; }
+                let mut node = pk((n - 1) as u32);
+                for i in (0..n - 1).rev() { node = and_v(vpk(i as u32), node); }
+                for _ in 0..k5 { node = and_v(Node::Verify(bx(Node::Older(200))), node); }
+                for _ in 0..k3 { node = and_v(Node::Verify(bx(Node::Older(10))), node); }
+                let len = ast::to_ms::<DefiniteDescriptorKey, Legacy>(&node).ok()?.encode().len();
+                if len == target { return Some(node); }
+            }
+        }
+    }
+    None
+}
+
+/// two sources COVER the same key with different taproot abilities; exactly one of them can
+/// do what the plan needs (so the expected signature size does not depend on iteration order)
+fn dual_source_pas(dd: &DD, key: u32) -> Vec<PA> {
+    let k = kent(key);
+    let (p, e) = match (Src::of(k, Rel::Parent), Src::of(k, Rel::Exact)) { (Some(p), Some(e)) => (p, e), _ => return vec![] };
+    let full = full_pa(dd);
+    let others: Vec<Src> = full.srcs.iter().filter(|s| !s.covers(k)).cloned().collect();
+    let mut v = vec![];
+    for capable_is_parent in [false, true] {
+        for cap_default in [true, false] {
+            for what in ["leaf", "key", "ecdsa"] {
+                let (mut cap, mut not) = if capable_is_parent { (p.clone(), e.clone()) } else { (e.clone(), p.clone()) };
+                cap.sighash_default = cap_default; not.sighash_default = !cap_default;
+                match what {
+                    "leaf" => { not.leaves = Leaves::None; cap.leaves = Leaves::Any; cap.key_spend = false; not.key_spend = false; }
+                    "key" => { not.key_spend = false; cap.key_spend = true; not.leaves = Leaves::None; cap.leaves = Leaves::None; }
+                    // ECDSA ability only: the taproot abilities of the incapable source are off
+                    // as well, so that no choice depends on the iteration order
+                    _ => { not.ecdsa = false; cap.ecdsa = true; not.key_spend = false; not.leaves = Leaves::None; }
+                }
+                let mut a = full.clone();
+                a.srcs = others.clone();
+                if what != "key" { for s in a.srcs.iter_mut() { s.key_spend = false; } }
+                a.srcs.push(not); a.srcs.push(cap);
+                v.push(a);
+            }
+        }
+    }
+    let mut seen = BTreeSet::new();
+    v.retain(|a| seen.insert(a.clone()));
+    v
+}
+
+fn dd_from_desc(desc: Descriptor<DefiniteDescriptorKey>, keys: Vec<u32>, hashes: Vec<(HK, u32)>, afters: Vec<u32>, olders: Vec<u32>) -> DD {
+    DD { name: desc.to_string().split('#').next().unwrap().to_string(), desc, keys, hashes, afters, olders,
+         leaves: vec![], internal: None, leaf_keys: vec![], rawpkhs: vec![], sane: true }
+}
+
+/// `Assets` values built through the library's own API (`Assets::new().add(..)`, `IntoAssets`
+/// of keys / hashes / other `Assets`, `.after()` / `.older()`, `LoggerAssetProvider`), each with
+/// the meaning the documentation gives it (`PA`), planned and judged like every other case
+fn api_cases(out: &mut Out) {
+    use miniscript::plan::LoggerAssetProvider;
+    use miniscript::DescriptorPublicKey;
+    let k300 = kent(300);
+    let s300 = k300.def.to_string();
+    let base = s300[..s300.rfind('/').unwrap()].to_string();              // [fp/48'/1']xpub…/0
+    let acct = base[..base.rfind('/').unwrap()].to_string();              // [fp/48'/1']xpub…
+    let n = k300.path.len();
+    let src_of = |path: Vec<ChildNumber>| Src { fp: k300.fp, path, ecdsa: true, key_spend: true, leaves: Leaves::Any, sighash_default: true };
+    // (a) wildcard key source, descriptor derived at index 5
+    let wild = format!("{}/*", base);
+    if let (Ok(wkey), true) = (DescriptorPublicKey::from_str(&wild), true) {
+        for (tmpl, olders) in [("wsh(pk(@))", vec![]), ("wpkh(@)", vec![]), ("tr(@)", vec![]), ("sh(wsh(and_v(v:pk(@),older(10))))", vec![10u32]), ("pkh(@)", vec![])] {
+            let d = match Descriptor::<DescriptorPublicKey>::from_str(&tmpl.replace('@', &wild)) { Ok(d) => d, Err(_) => continue };
+            for (idx, kid) in [(5u32, 300u32), (6, 302)] {
+                let def = match d.at_derivation_index(idx) { Ok(x) => x, Err(_) => continue };
+                let mut dd = dd_from_desc(def, vec![kid], vec![], vec![], olders.clone());
+                if tmpl.starts_with("tr(") { dd.internal = Some(kid); }
+                let api = catch(|| { let mut a = PlanAssets::new().add(wkey.clone()); if !olders.is_empty() { a = a.older(relative::LockTime::from_consensus(10).unwrap()); } a });
+                let pa = PA { srcs: vec![src_of(k300.path[..n - 1].to_vec())], rel: olders.first().cloned(), ..Default::default() };
+                match api {
+                    None => out.line(&format!("J nopanic assets-add wildcard {} PANIC", dd.name), "ok"),
+                    Some(a) => { out.line(&format!("J nopanic assets-add wildcard {} OK", dd.name), "ok");
+                        for mall in [false, true] { check_case_api(out, &dd, &pa, Some(("add-wildcard-xpub", &a)), mall, false); } }
+                }
+            }
+        }
+    }
+    // (b) multipath key source <0;1>/*: both branches become sources
+    let multi = format!("{}/<0;1>/*", acct);
+    if let Ok(mkey) = DescriptorPublicKey::from_str(&multi) {
+        let api = catch(|| PlanAssets::new().add(mkey.clone()));
+        let mut acc_path = k300.path[..n - 2].to_vec();
+        let pa = PA { srcs: vec![{ let mut p = acc_path.clone(); p.push(cn(0, false)); src_of(p) }, { acc_path.push(cn(1, false)); src_of(acc_path.clone()) }], ..Default::default() };
+        match api {
+            None => out.line(&format!("J nopanic assets-add multipath {} PANIC", multi), "ok"),
+            Some(a) => {
+                out.line(&format!("J nopanic assets-add multipath {} OK", multi), "ok");
+                for tmpl in ["wsh(pk(@))", "wpkh(@)"] {
+                    let d = match Descriptor::<DescriptorPublicKey>::from_str(&tmpl.replace('@', &multi)) { Ok(d) => d, Err(_) => continue };
+                    let singles = match catch(|| d.into_single_descriptors().ok()) { Some(Some(v)) => v, _ => { out.line(&format!("J nopanic into_single_descriptors {} PANIC", multi), "ok"); continue } };
+                    for (bi, sd) in singles.iter().enumerate() {
+                        let kid = if bi == 0 { 300 } else { 304 };
+                        if let Ok(def) = sd.at_derivation_index(5) {
+                            let dd = dd_from_desc(def, vec![kid], vec![], vec![], vec![]);
+                            for mall in [false, true] { check_case_api(out, &dd, &pa, Some(("add-multipath-xpub", &a)), mall, false); }
+                        }
+                    }
+                }
+            }
+        }
+    }
+    // (c) IntoAssets of every hash kind (right hash, and a hash of the same kind that is not in the script)
+    let k0 = kent(0);
+    let key0 = k0.def.clone().into_descriptor_public_key();
+    for (kind, h) in [(HK::Sha256, 0u32), (HK::Hash160, 1), (HK::Hash256, 2), (HK::Ripemd160, 3)] {
+        let node = and_v(Node::Verify(bx(Node::Hash(kind, h))), pk(0));
+        for w in [Wrap::Wsh, Wrap::Sh] {
+            let dd = match dd_ms(w, &node) { Some(d) => d, None => continue };
+            for (hid, label) in [(h, "add-hash"), ((h + 1) % 4, "add-other-hash")] {
+                let v = ast::hash_value(kind, hid);
+                let base = PlanAssets::new().add(key0.clone());
+                let a = match kind {
+                    HK::Sha256 => base.add(sha256::Hash::from_slice(&v).unwrap()),
+                    HK::Hash256 => base.add(hash256::Hash::from_slice(&v).unwrap()),
+                    HK::Ripemd160 => base.add(ripemd160::Hash::from_slice(&v).unwrap()),
+                    HK::Hash160 => base.add(hash160::Hash::from_slice(&v).unwrap()),
+                };
+                let mut pa = PA { srcs: vec![Src::of(k0, Rel::Exact).unwrap()], ..Default::default() };
+                pa.pre.insert((kind, hid));
+                for mall in [false, true] { check_case_api(out, &dd, &pa, Some((label, &a)), mall, false); }
+            }
+        }
+    }
+    // (d) precedence of locks when Assets are added to Assets: the ADDED value wins when it has
+    // a lock, otherwise the existing one stays
+    for (node, is_abs) in [(and_v(vpk(0), Node::After(100)), true), (and_v(vpk(0), Node::Older(10)), false)] {
+        let dd = match dd_ms(Wrap::Wsh, &node) { Some(d) => d, None => continue };
+        let lock = if is_abs { 100u32 } else { 10 };
+        let with = |a: PlanAssets, v: u32| if is_abs { a.after(absolute::LockTime::from_consensus(v)) } else { a.older(relative::LockTime::from_consensus(v).unwrap()) };
+        for (first, second, label) in [(Some(lock / 2), Some(lock), "lock-then-add-lock"), (Some(lock), Some(lock / 2), "lock-then-add-smaller"), (Some(lock), None, "lock-then-add-none"), (None, Some(lock), "none-then-add-lock")] {
+            let mut a = PlanAssets::new().add(key0.clone());
+            if let Some(v) = first { a = with(a, v); }
+            let b = match second { Some(v) => with(PlanAssets::new(), v), None => PlanAssets::new() };
+            let a = a.add(b);
+            let eff = second.or(first);
+            let mut pa = PA { srcs: vec![Src::of(k0, Rel::Exact).unwrap()], ..Default::default() };
+            if is_abs { pa.abs = eff; } else { pa.rel = eff; }
+            for mall in [false, true] { check_case_api(out, &dd, &pa, Some((label, &a)), mall, false); }
+        }
+    }
+    // (e) LoggerAssetProvider delegates every query: same plan as the plain Assets
+    let mut lnodes: Vec<(Wrap, Node)> = vec![
+        (Wrap::Wsh, Node::OrD(bx(pk(0)), bx(and_v(vpk(1), Node::After(100))))),
+        (Wrap::Wsh, and_v(Node::Verify(bx(Node::Hash(HK::Hash256, 2))), pk(0))),
+        (Wrap::Sh, and_v(Node::Verify(bx(Node::Hash(HK::Ripemd160, 3))), pk(0))),
+        (Wrap::Wsh, and_v(Node::Verify(bx(Node::Hash(HK::Hash160, 1))), and_v(vpk(0), Node::Older(10)))),
+        (Wrap::ShWsh, and_v(Node::Verify(bx(Node::Hash(HK::Sha256, 0))), pk(1))),
+        (Wrap::Wsh, Node::Multi(2, vec![0, 1, 2])),
+    ];
+    lnodes.push((Wrap::Bare, pk(0)));
+    let mut dds: Vec<DD> = lnodes.iter().filter_map(|(w, n)| dd_ms(*w, n)).collect();
+    for w in [Wrap::Pkh, Wrap::Wpkh, Wrap::ShWpkh] { if let Some(d) = dd_key(w, 0) { dds.push(d); } }
+    if let Some(d) = dd_tr(3, &[pk(200), and_v(vpk(201), Node::Older(10))]) { dds.push(d); }
+    if let Some(d) = dd_tr(3, &[]) { dds.push(d); }
+    for dd in &dds {
+        let full = full_pa(dd);
+        let mut nokey = full.clone();
+        for s in nokey.srcs.iter_mut() { s.key_spend = false; }
+        for pa in [full, nokey, PA::default()] {
+            let assets = pa.to_assets(&dd.leaves);
+            for mall in [false, true] {
+                let plain = run_plan(dd, &assets, mall, false);
+                let logged = run_plan(dd, &LoggerAssetProvider(&assets), mall, false);
+                match (plain, logged) {
+                    (Some(p), Some(l)) => out.line(&format!("J plan-logger-same {} {} {} {} {} {}", ty_name(dd.desc.desc_type()), if mall { "mall" } else { "nonmall" }, dd.name, pa.wire(),
+                        plan_sig(dd, &p.ok()), plan_sig(dd, &l.ok())), "ok"),
+                    _ => out.line(&format!("J nopanic plan-logger {} {} PANIC", dd.name, pa.wire()), "ok"),
+                }
+            }
+        }
+    }
+}
+
 pub fn run(out: &mut Out, thorough: bool, seed: u64) {
     let mut rng = Rng(seed ^ 0xC17);
     let _ = ktable();
@@ -1157,6 +1511,19 @@ pub fn run(out: &mut Out, thorough: bool, seed: u64) {
         nodes.extend(lock_corpus(&|i| 300 + i, false));
         nodes.extend(hash_corpus(&|i| i));
         if ctx != CtxK::Bare { nodes.extend(raw_corpus(&|i| i)); }
+        // the designated input classes, in every tier
+        nodes.extend(ast::dimension_corpus(ctx));
+        if ctx == CtxK::Legacy || ctx == CtxK::Bare { nodes.extend(unc_corpus(ctx == CtxK::Bare)); }
+        if ctx == CtxK::Legacy {
+            // redeem scripts at the push-opcode edges and a wide one (343 bytes: 3-byte push)
+            for t in [75usize, 76, 255, 256] {
+                match sized_script(t) { Some(n) => nodes.push(n), None => out.count("sized script not constructible") }
+            }
+            nodes.push(Node::Multi(1, (0..10).collect()));
+            nodes.push(Node::Multi(3, (0..10).collect()));
+        }
+        let mut seen_nodes = BTreeSet::new();
+        nodes.retain(|n| seen_nodes.insert(n.clone()));
         for node in &nodes {
             for w in &wraps {
                 // sh-wsh: every third script only (same satisfier as wsh)
@@ -1233,6 +1600,46 @@ pub fn run(out: &mut Out, thorough: bool, seed: u64) {
                 for pa in pa_variants_tr(&dd, cap, &mut rng) { check_case(out, &dd, &pa, false, false); check_case(out, &dd, &pa, true, false); }
             }
         }
+        // designated classes as single leaves and inside small trees of every shape
+        let dim = ast::dimension_corpus(CtxK::Tap);
+        let mut wide: Vec<Node> = vec![
+            Node::MultiA(2, (200..208).collect()),                                   // leaf script >= 253 bytes
+            Node::MultiA(1, (0..260u32).map(|i| 200 + i % 10).collect()),           // > 252 witness items
+            and_v(Node::Verify(bx(Node::MultiA(2, (200..208).collect()))), Node::Older(10)),
+        ];
+        wide.extend(dim.iter().cloned());
+        for (i, node) in wide.iter().enumerate() {
+            let trees: Vec<(Vec<Node>, Shape)> = match i % 3 {
+                0 => vec![(vec![node.clone()], Shape::Left)],
+                1 => vec![(vec![pk(201), node.clone(), and_v(vpk(202), Node::After(100))], Shape::Right)],
+                _ => vec![(vec![node.clone(), pk(202), Node::Hash(HK::Sha256, 0), and_v(vpk(201), Node::Older(20))], Shape::Balanced)],
+            };
+            for (leaves, shape) in trees {
+                if let Some(dd) = dd_tr_shape(3, &leaves, shape) {
+                    let mut l = dd.leaves.clone(); l.sort(); l.dedup();
+                    if l.len() != dd.leaves.len() { continue; }
+                    n_desc += 1;
+                    let mut pas = pa_variants_tr(&dd, if i < 3 { 4 } else { cap / 2 }, &mut rng);
+                    pas.extend(raw_variants(&dd));
+                    for pa in pas { for mall in [false, true] { check_case(out, &dd, &pa, mall, false); } }
+                }
+            }
+        }
+        // two sources covering ONE key with different taproot abilities (leaf / key path / size)
+        for (ik, leaves) in [(3u32, vec![pk(200)]), (3, vec![pk(200), and_v(vpk(203), Node::Older(10))]), (0, vec![pk(203)]), (300, vec![pk(201)])] {
+            if let Some(dd) = dd_tr(ik, &leaves) {
+                n_desc += 1;
+                let leaf_key = match leaves[0] { Node::Check(ref x) => match **x { Node::PkK(k) => if k >= 300 { k } else { k - 200 }, _ => 0 }, _ => 0 };
+                let mut pas = dual_source_pas(&dd, leaf_key);
+                pas.extend(dual_source_pas(&dd, ik));
+                for pa in pas { for mall in [false, true] { check_case(out, &dd, &pa, mall, false); } }
+            }
+        }
+        for w in [Wrap::Wpkh, Wrap::Pkh] {
+            for key in [0u32, 3, 300] {
+                if let Some(dd) = dd_key(w, key) { for pa in dual_source_pas(&dd, key) { check_case(out, &dd, &pa, false, false); } }
+            }
+        }
         let n_tr = if thorough { 600 } else { 110 };
         for i in 0..n_tr {
             let nl = if i % 3 == 2 { 3 + rng.below(3) } else { 1 + rng.below(3) };
@@ -1240,7 +1647,8 @@ pub fn run(out: &mut Out, thorough: bool, seed: u64) {
             let mut leaves: Vec<Node> = (0..nl).map(|_| pool[rng.below(pool.len())].clone()).collect();
             if i % 6 == 2 { leaves.push(frags[rng.below(frags.len())].clone()); }
             let ik = *rng.pick(&[3u32, 4, 0, 303]);
-            if let Some(dd) = dd_tr(ik, &leaves) {
+            let shape = match i % 4 { 1 => Shape::Right, 3 => Shape::Balanced, _ => Shape::Left };
+            if let Some(dd) = dd_tr_shape(ik, &leaves, shape) {
                 // leaf hashes must be pairwise distinct for per-leaf availability to be meaningful
                 let mut l = dd.leaves.clone(); l.sort(); l.dedup();
                 if l.len() != dd.leaves.len() { continue; }
@@ -1251,6 +1659,9 @@ pub fn run(out: &mut Out, thorough: bool, seed: u64) {
             }
         }
     }
+    // ---- Assets built through the library's construction API
+    api_cases(out);
+    psbt_two_leaves(out);
     // ---- adversarial assets: no panic (origin-less keys vs same-fingerprint sources of any depth)
     adversarial(out);
     std::panic::set_hook(old_hook);
